@@ -1,4 +1,5 @@
 import Infretis.Lemmas.Config
+import Infretis.Props.C10
 /-!
 # C18 — invalid configurations are rejected up front; accepted ones initialise
 
@@ -724,6 +725,51 @@ theorem accepted_initialises (c : Cfg) (h : check c = .ok ()) (hl : c.lm1 ≠ .a
 
 example : ∃ es, initEnsembles good = .ok es ∧ es.length = good.interfaces.length :=
   accepted_initialises good (by decide) (by decide)
+
+
+/-! ### valid initial paths have a non-zero weight in their own ensemble -/
+
+/-- **Own weight of an initial path (non-strict).** `load_paths` gives every [k+] path the weight
+    vector `calc_cv_vector` (model: `Infretis.WF.cvVector`, C10).  For a shooting ensemble on
+    interface `k` the own entry is 1 as soon as the path's maximum reaches `λ_k` — `λ_k ≤ max`,
+    equality included, the same convention as `Path.check_interfaces` and the start/end tests —
+    so `add_traj`'s `assert valid[ens] != 0` holds for every valid initial path. -/
+theorem valid_initial_path_own_weight (c : Cfg) (ops : List Int) (ws : List Nat) (pmax l : Int) (k : Nat)
+    (h : Infretis.WF.cvVector ops c.interfaces c.moves.tail c.cap = .ok ws)
+    (hm : Infretis.WF.maxOf ops = some pmax) (hk : k + 1 < c.interfaces.length)
+    (hsh : c.moves[k + 1]? = some false) (hl : c.interfaces[k]? = some l) (hle : l ≤ pmax) :
+    ws[k]? = some 1 := by
+  unfold Infretis.WF.cvVector at h
+  rw [hm] at h
+  cases hi : c.interfaces.head? with
+  | none => simp [hi] at h
+  | some i0 =>
+    cases hlast : c.interfaces.getLast? with
+    | none => simp [hi, hlast] at h
+    | some ilast =>
+      simp only [hi, hlast] at h
+      split at h
+      · simp at h
+      · rename_i ws' hws
+        have hw : ws = ws' ++ [0] := by
+          injection h with h; exact h.symm
+        subst hw
+        obtain ⟨hlen, hent⟩ := Infretis.C10.cvVectorGo_shape ops i0 _ pmax _ _ _ hws
+        have hkd : k < c.interfaces.dropLast.length := by simp; omega
+        have hkw : k < ws'.length := by omega
+        have hmt : c.moves.tail[k]? = some false := by rw [List.getElem?_tail]; exact hsh
+        obtain ⟨hkm, hmk⟩ := List.getElem?_eq_some_iff.1 hmt
+        have := hent k hkd hkm hkw hmk
+        obtain ⟨hki, hlk⟩ := List.getElem?_eq_some_iff.1 hl
+        have hdl : c.interfaces.dropLast[k] = l := by rw [List.getElem_dropLast]; exact hlk
+        rw [hdl, if_pos hle] at this
+        rw [List.getElem?_append_left hkw, List.getElem?_eq_getElem hkw, this]
+
+/-- at equality: a path whose maximum sits exactly ON interface 1 (= 2) has weight 1 in [1+] -/
+example : Infretis.WF.maxOf [-1, 0, 1, 2, 1, 0, -1] = some 2 ∧
+    ({ good with moves := [false, false, false], cap := none } : Cfg).interfaces[1]? = some 2 ∧
+    Infretis.WF.cvVector [-1, 0, 1, 2, 1, 0, -1] [0, 2, 4] [false, false] none = .ok [1, 1, 0] := by
+  decide
 
 /-! ### the executable form of `Valid` used by the tie -/
 
